@@ -845,3 +845,66 @@ def _tel_proof():
 
 
 LEMMA_PROOFS["L_tel"] = _tel_proof
+
+
+# ----------------------------------------------------------------------------- sums over lists built by append (C03: re-evaluating the reported anomalies)
+# LSUM(name, lst, k, g) = sum_{q<k} g(lst[q]), defined by recurrence over k for the list object `lst` (named by a fresh identity constant):
+#   S(id, 0) = 0,  S(id, q+1) = S(id, q) + g(lst[q]).
+# For a list made by `old.append(x)` the proved extensionality lemma L_lsum_ext (equal elements on a prefix => equal partial sums) is added as a
+# fact: S(id_new, k) == S(id_old, k) for k <= len(old); its premise holds by construction (new[q] IS old[q] for q < len(old)).
+_LSUM = {}
+
+
+def _list_id(lst):
+    if getattr(lst, "lid", None) is None:
+        lst.lid = z3.Int(fresh_name("LID"))
+    return lst.lid
+
+
+@spec("LSUM")
+def _lsum(eng, st, name, lst, k, g):
+    if not isinstance(lst, Lst):
+        raise EngineError("LSUM needs a list")
+    S = _LSUM.setdefault(name, z3.Function("LSUM_" + name, _I, _I, _R))
+
+    def ensure(l):
+        lid = _list_id(l)
+        tag = f"lsum:{name}:{lid}"
+        if tag in st.ghost_fns:
+            return lid
+        st.ghost_fns[tag] = True
+        # only the instances of the defining recurrence that the proofs need are handed to the solver (a quantified recurrence with the trigger
+        # S(id, q+1) re-triggers on its own right-hand side): S(id, 0) = 0, and at each append the step q = len(old)
+        st.assume(S(lid, 0) == 0)
+        eng.note_assumption(f"definition of the spec function LSUM_{name} (sum of the gains of the first k list elements) by its recurrence "
+                            "S(id,0)=0, S(id,q+1)=S(id,q)+g(lst[q]); instances: q = len(old) at each append")
+        h = getattr(l, "hist", None)
+        if h is not None and h[0] == "append":
+            old = h[1]
+            oid = ensure(old)
+            n_old = old.length
+            gain = to_z3(to_real(eng.call_lambda(st, g, [l.get(n_old)])))
+            st.assume(S(lid, to_z3(n_old) + 1) == S(lid, to_z3(n_old)) + gain)
+            kk = z3.Int(fresh_name("k"))
+            st.assume(z3.ForAll([kk], z3.Implies(z3.And(0 <= kk, kk <= to_z3(old.length)), S(lid, kk) == S(oid, kk)),
+                                patterns=[S(lid, kk), S(oid, kk)]))
+            eng.used_lemmas.add("L_lsum_ext")
+        return lid
+
+    return S(ensure(lst), to_z3(k))
+
+
+def _lsum_ext_proof():
+    G1 = z3.Function("G1!X", _I, _R)
+    G2 = z3.Function("G2!X", _I, _R)
+    S1 = z3.Function("S1!X", _I, _R)
+    S2 = z3.Function("S2!X", _I, _R)
+    m, i, q = z3.Ints("m!X i!X q!X")
+    hyp = [S1(0) == 0, S2(0) == 0,
+           z3.ForAll([q], z3.Implies(0 <= q, S1(q + 1) == S1(q) + G1(q)), patterns=[S1(q + 1)]),
+           z3.ForAll([q], z3.Implies(0 <= q, S2(q + 1) == S2(q) + G2(q)), patterns=[S2(q + 1)]),
+           z3.ForAll([q], z3.Implies(z3.And(0 <= q, q < m), G1(q) == G2(q)), patterns=[G1(q)])]
+    return [(".base", hyp, S1(0) == S2(0)), (".step", hyp + [0 <= i, i + 1 <= m, S1(i) == S2(i)], S1(i + 1) == S2(i + 1))]
+
+
+LEMMA_PROOFS["L_lsum_ext"] = _lsum_ext_proof
